@@ -1056,3 +1056,148 @@ Proof.
     destruct (c_op (w_cl w c) && member_of w _ dest); cbn [fst];
       [apply Inv_enq; [exact I|exact Logic.I]|apply Inv_send; exact I].
 Qed.
+
+(* ---- the delayed push and OnTrack *)
+
+Lemma in_remove_nth : forall {A} i (l : list A) x, In x (remove_nth i l) -> In x l.
+Proof.
+  induction i; destruct l; simpl; try tauto.
+  intros x [H|H]; [left; exact H|right; apply IHi; exact H].
+Qed.
+
+Lemma Inv_set_timers : forall w ts, Inv w -> (forall t, In t ts -> In t (w_timers w)) -> Inv (set_timers ts w).
+Proof.
+  intros w ts I Hts.
+  destruct I as [Iids Iidnz Iups Ialive Idowns Inodup Iqueue Itimers Ireplace Inogroup Idead Iupsnd].
+  constructor; intros; autorewrite with sub in *;
+  [> eauto | eauto | eauto | eauto | | eauto | | eauto | | eauto | eauto | eauto ].
+  - unfold down_ok. autorewrite with sub. apply Idowns. assumption.
+  - eapply (action_ok_same_heap w); [reflexivity|reflexivity|]. eauto.
+  - eapply (ended_same_heap w); [reflexivity|reflexivity|]. eauto.
+Qed.
+
+(* an update of an object that keeps id, owner, group, closed; tracks may grow;
+   the replace field may be cleared *)
+Lemma Inv_upd_up_light : forall w x f,
+  Inv w -> x < w_nup w ->
+  (forall o, uo_id (f o) = uo_id o /\ uo_owner (f o) = uo_owner o /\ uo_group (f o) = uo_group o /\
+             uo_label (f o) = uo_label o /\ uo_closed (f o) = uo_closed o /\
+             (exists l, uo_tracks (f o) = uo_tracks o ++ l) /\
+             (uo_replace (f o) = uo_replace o \/ uo_replace (f o) = 0)) ->
+  Inv (upd_up x f w).
+Proof.
+  intros w x f I Hx Hf.
+  assert (P : forall v, uo_id (w_up (upd_up x f w) v) = uo_id (w_up w v) /\
+                        uo_owner (w_up (upd_up x f w) v) = uo_owner (w_up w v) /\
+                        uo_group (w_up (upd_up x f w) v) = uo_group (w_up w v) /\
+                        uo_closed (w_up (upd_up x f w) v) = uo_closed (w_up w v) /\
+                        (uo_replace (w_up (upd_up x f w) v) = uo_replace (w_up w v) \/
+                         uo_replace (w_up (upd_up x f w) v) = 0)).
+  { intro v. simpl. destruct (Nat.eqb v x); [|repeat split; auto].
+    destruct (Hf (w_up w v)) as [A [B [C [D [E [F G]]]]]]. repeat split; auto. }
+  assert (Hle : heap_le w (upd_up x f w)).
+  { split; [simpl; lia|]. intros v Hv. simpl. destruct (Nat.eqb v x).
+    - destruct (Hf (w_up w v)) as [A [B [C [D [E [F G]]]]]]. repeat split; auto. intro H. congruence.
+    - repeat split; auto. exists []. rewrite app_nil_r. reflexivity. }
+  destruct I as [Iids Iidnz Iups Ialive Idowns Inodup Iqueue Itimers Ireplace Inogroup Idead Iupsnd].
+  constructor; intros; change (w_cl (upd_up x f w)) with (w_cl w) in *;
+    change (w_nup (upd_up x f w)) with (w_nup w) in *;
+    change (w_timers (upd_up x f w)) with (w_timers w) in *.
+  - destruct (P u) as [E1 _]. destruct (P v) as [E2 _]. rewrite E1, E2 in H1. eauto.
+  - destruct (P u) as [E1 _]. rewrite E1. eauto.
+  - destruct (P u) as [E1 [E2 [_ [E4 _]]]]. rewrite E1, E2, E4. eauto.
+  - destruct (P u) as [E1 [E2 [E3 [E4 _]]]]. rewrite E4 in H0. rewrite E1, E2, E3. eauto.
+  - unfold down_ok. destruct (P (d_remote d)) as [E1 [E2 [E3 _]]].
+    change (w_cl (upd_up x f w)) with (w_cl w). change (w_nup (upd_up x f w)) with (w_nup w).
+    rewrite E1, E2, E3. apply Idowns. assumption.
+  - eauto.
+  - eapply action_ok_mono; [exact Hle|]. auto.
+  - destruct (P (t_up t)) as [_ [E2 [E3 _]]]. rewrite E2, E3. eauto.
+  - eapply ended_mono; [exact Hle|]. destruct (P u) as [_ [_ [_ [_ [E5|E5]]]]].
+    + rewrite E5 in *. apply Ireplace; auto.
+    + congruence.
+  - eauto.
+  - eauto.
+  - eauto.
+Qed.
+
+Lemma Inv_fire_timer : forall w t,
+  Inv w ->
+  t_up t < w_nup w -> t_group t = uo_group (w_up w (t_up t)) ->
+  ~ In (uo_owner (w_up w (t_up t))) (t_cs t) ->
+  Inv (fire_timer t w).
+Proof.
+  intros w t I T1 T2 T3. unfold fire_timer.
+  destruct (uo_pushed (w_up w (t_up t))); [exact I|].
+  set (f := fun o => up_set_replace 0 (up_set_pushed true o)).
+  assert (I2 : Inv (upd_up (t_up t) f w)).
+  { apply Inv_upd_up_light; auto. intro o. unfold f. simpl. repeat split; auto.
+    exists []. rewrite app_nil_r. reflexivity. }
+  apply Inv_enq_all; [exact I2|]. intros m Hm. simpl.
+  rewrite Nat.eqb_refl. unfold f. simpl. repeat split; auto.
+  - exists []. rewrite app_nil_r. reflexivity.
+  - intro E. apply T3. rewrite E. exact Hm.
+  - intro Hr. pose proof (inv_replace _ I (t_up t) T1 Hr) as He.
+    destruct He as [v [Hv [Hid Hc]]]. exists v. simpl. repeat split; auto.
+    + destruct (Nat.eqb v (t_up t)); simpl; auto.
+    + destruct (Nat.eqb v (t_up t)); simpl; auto.
+Qed.
+
+Lemma Inv_new_timer : forall w u g cs,
+  Inv w -> u < w_nup w -> g = uo_group (w_up w u) -> ~ In (uo_owner (w_up w u)) cs ->
+  Inv (new_timer u g cs w).
+Proof.
+  intros w u g cs I Hu Hg Hcs. unfold new_timer.
+  assert (I2 : Inv (upd_up u (up_set_pushed false) w)).
+  { apply Inv_upd_up_light; auto. intro o. simpl. repeat split; auto. exists []. rewrite app_nil_r. reflexivity. }
+  destruct I2 as [Iids Iidnz Iups Ialive Idowns Inodup Iqueue Itimers Ireplace Inogroup Idead Iupsnd].
+  set (w1 := upd_up u (up_set_pushed false) w) in *.
+  constructor; intros; autorewrite with sub in *;
+  [> eauto | eauto | eauto | eauto | | eauto | | | | eauto | eauto | eauto ].
+  - unfold down_ok. autorewrite with sub. apply Idowns. assumption.
+  - eapply (action_ok_same_heap w1); [reflexivity|reflexivity|]. eauto.
+  - apply in_app_iff in H. destruct H as [H|[H|[]]]; [eauto|]. subst t. simpl.
+    unfold w1. simpl. rewrite Nat.eqb_refl. simpl. auto.
+  - eapply (ended_same_heap w1); [reflexivity|reflexivity|]. eauto.
+Qed.
+
+(* ---- every step *)
+
+Theorem Inv_step : forall w o, Inv w -> ok_op w o -> Inv (step w o).
+Proof.
+  intros w o I Hok. destruct o as [c m|c|c|i|u k]; simpl.
+  - destruct (Nat.ltb c (w_n w) && negb (c_dead (w_cl w c))) eqn:E; [|exact I].
+    apply andb_prop in E. destruct E as [_ E]. apply negb_true_iff in E.
+    apply Inv_finish. apply Inv_handle_msg; auto.
+  - destruct (Nat.ltb c (w_n w) && negb (c_dead (w_cl w c))) eqn:E; [|exact I].
+    destruct (c_queue (w_cl w c)) as [|a q] eqn:Eq; [exact I|].
+    apply Inv_finish. apply Inv_handle_action.
+    + apply Inv_pop; [exact I|]. intros x Hx. rewrite Eq. right. exact Hx.
+    + eapply (action_ok_same_heap w); [reflexivity|reflexivity|].
+      apply (inv_queue _ I). rewrite Eq. left. reflexivity.
+  - destruct (Nat.ltb c (w_n w) && negb (c_dead (w_cl w c))); [apply Inv_error_close|]; exact I.
+  - destruct (nth_error (w_timers w) i) as [t|] eqn:E; [|exact I].
+    apply nth_error_In in E. destruct (inv_timers _ I t E) as [T1 [T2 T3]].
+    apply Inv_fire_timer; auto.
+    apply Inv_set_timers; [exact I|]. intros x Hx. eapply in_remove_nth. exact Hx.
+  - destruct (Nat.ltb u (w_nup w) && negb (uo_closed (w_up w u))) eqn:E; [|exact I].
+    apply andb_prop in E. destruct E as [E1 E2]. apply Nat.ltb_lt in E1. apply negb_true_iff in E2.
+    destruct (inv_alive _ I u E1 E2) as [A B]. rewrite B.
+    assert (I2 : Inv (upd_up u (up_add_track k) w)).
+    { apply Inv_upd_up_light; auto. intro o. simpl. repeat split; auto. exists [k]. reflexivity. }
+    apply Inv_new_timer; auto.
+    + simpl. rewrite Nat.eqb_refl. reflexivity.
+    + simpl. rewrite Nat.eqb_refl. simpl. apply not_in_others.
+Qed.
+
+Lemma Inv_init : forall n, Inv (init n).
+Proof.
+  intro n. constructor; simpl; intros; try lia; try discriminate; try tauto; try (repeat split; reflexivity).
+  constructor. constructor.
+Qed.
+
+Theorem Inv_run : forall ops w, Inv w -> ok_run w ops -> Inv (run w ops).
+Proof.
+  induction ops as [|o r IH]; intros w I Hok; [exact I|].
+  simpl in *. destruct Hok as [H1 H2]. apply IH; [apply Inv_step; assumption|exact H2].
+Qed.
